@@ -442,13 +442,23 @@ theorem prefixOK_all (H : OHyp E rank Good) (hnf : ∀ p, E.filter p = true) {s 
 
 /-- **PREFIX COMPLETENESS of the enumeration** (every fuel, every prefix, stopped or not): a member that is
     strictly better than a yielded program has been yielded -/
-theorem take_prefix_complete (R : RHyp E rank Good) (fuel k : Nat) (s' : St U π) (out : List Prog) (b : Bool)
+theorem accepted_all (hnf : ∀ p, E.filter p = true) (emE : List (π × Prog × UNT U)) :
+    accepted E emE = (emE.map (·.2.1)).reverse := by
+  unfold accepted
+  have : emE.filter (fun e => E.filter e.2.1) = emE := by
+    rw [List.filter_eq_self]
+    intro x _
+    exact hnf _
+  rw [this]
+
+theorem take_prefix_complete (R : RHyp E rank Good) (hnf : ∀ p, E.filter p = true) (fuel k : Nat) (s' : St U π)
+    (out : List Prog) (b : Bool)
     (h : take E fuel k (St.empty E.G) [] = some (s', out, b)) (p q : Prog) (hq : q ∈ out) (kp kq : π)
     (hkp : StartKey E p kp) (hkq : StartKey E q kq) (hlt : E.ops.lt kp kq = true) : p ∈ out := by
   have H := R.ohyp
   obtain ⟨emE, hc, hout, _⟩ := (oc_empty E).take R k rfl h
   have hog := hc.og
-  rw [hout, List.mem_reverse] at hq ⊢
+  rw [hout, accepted_all hnf, List.mem_reverse] at hq ⊢
   obtain ⟨xq, hxq, hxqe⟩ := List.mem_map.mp hq
   -- the key of the yielded `q` is the priority of its entry
   have hkq' : kq = xq.1 := by
@@ -547,7 +557,7 @@ theorem take_prefix_complete (R : RHyp E rank Good) (fuel k : Nat) (s' : St U π
         rcases key p hpp with hin | hle
         · exact absurd ((mem_doneR _ p nt).mp hin) hnotem
         · exact hle
-      · exact prefixOK_all H R.nofilter hog.base hog.all (rank nt) nt rfl hfull f.2.1 p hfpop ⟨prp, hprp⟩ hpp
+      · exact prefixOK_all H hnf hog.base hog.all (rank nt) nt rfl hfull f.2.1 p hfpop ⟨prp, hprp⟩ hpp
     -- keys: kq ≤ key f ≤ kp
     obtain ⟨wf, prf, hwf, hprf, hfk⟩ := hog.base.sinv.start_ok f hf
     rw [hfe] at hwf hprf
@@ -570,7 +580,7 @@ theorem take_prefix_complete (R : RHyp E rank Good) (fuel k : Nat) (s' : St U π
       · have := hex.1; rw [hu.1] at this; cases this
       · exact hfu
     have hpp := exhausted_complete H hog.base hog.all (rank nt) nt rfl hfull hex.2.1 p ⟨prp, hprp⟩
-      (PS.HG.clean_of_all E.filter R.nofilter p)
+      (PS.HG.clean_of_all E.filter hnf p)
     exact hnotem (hex.2.2 p hpp)
 
 end PS.UHS
